@@ -380,14 +380,14 @@ func runC05(p *core.Prog, r *core.Report) {
 		}
 		var okEdges []core.Edge
 		nPP, nPrev := 0, 0
-		core.Instrs(fn, func(in ssa.Instruction) {
+		core.InstrsDeep(fn, func(in ssa.Instruction) { // the tests may sit in a helper that answers "not ready"
 			ifi, ok := in.(*ssa.If)
 			if !ok {
 				return
 			}
 			isSt := func(v ssa.Value) bool {
 				c, ok := v.(*ssa.Call)
-				return ok && core.CommonCallee(c.Common()) == getState && sameUnit(c.Call.Args[1], unit)
+				return ok && core.CommonCallee(c.Common()) == getState && sameUnit(core.CallerValue(fn, c.Call.Args[1]), unit)
 			}
 			isPP := func(v ssa.Value) bool {
 				k, ok := v.(*ssa.Const)
@@ -404,16 +404,16 @@ func runC05(p *core.Prog, r *core.Report) {
 		})
 		q := core.PathQuery{Fn: fn, CutEdge: func(e core.Edge) bool { return containsEdge(okEdges, e) }}
 		_, reach := q.CanReach(nil, func(x ssa.Instruction) bool { return x == ssa.Instruction(call) })
-		r.Check(nPP > 0 && !reach, "C05.R4", "CmdTryMerge/partial-present", "a unit is handed to the squasher only when its state is PartialPresent", "MarkSegmentMerging reachable without the PartialPresent test", p.Pos(call.Pos()))
+		r.Check(nPP > 0 && !reach, "C05.R4", "CmdTryMerge/partial-present", "a unit is handed to the squasher only when its state is PartialPresent", fmt.Sprintf("MarkSegmentMerging reachable without the PartialPresent test (%d tests of the unit's state, %d equality edges)", nPP, len(okEdges)), p.Pos(call.Pos()))
 		var prevEdges []core.Edge
-		core.Instrs(fn, func(in ssa.Instruction) {
+		core.InstrsDeep(fn, func(in ssa.Instruction) { // the tests may sit in a helper that answers "not ready"
 			ifi, ok := in.(*ssa.If)
 			if !ok {
 				return
 			}
 			c, neg := core.StripNot(ifi.Cond)
 			cc, ok := c.(*ssa.Call)
-			if !ok || core.CommonCallee(cc.Common()) != prevC || !sameUnit(cc.Call.Args[1], unit) {
+			if !ok || core.CommonCallee(cc.Common()) != prevC || !sameUnit(core.CallerValue(fn, cc.Call.Args[1]), unit) {
 				return
 			}
 			nPrev++
